@@ -850,6 +850,30 @@ class Interp:
             if len(node.generators) != 1:
                 self.unsupported(node, "nested dict comprehension over a model")
             return first.dict_comprehension(self, node, node.generators[0], fr)
+        fn = self.call_stack[-1] if self.call_stack else None
+        hook = getattr(self.registry, "empty_dict_model", None) if self.registry is not None else None
+        if isinstance(first, Model) and hasattr(first, "fresh_index") and len(node.generators) == 1 and hook is not None and fn in getattr(self.registry, "generic_loops", ()):
+            # {k: v for x in seq} over a symbolic sequence, in a function whose loops the contract handles by the independent-iterations rule:
+            # the same as `d = {}; for x in seq: d[k] = v` (a comprehension cannot read the dictionary it builds, so nothing is carried)
+            d = hook(self)
+            if d is not None:
+                gen = node.generators[0]
+                if not first.tail and not self.P.branch(SBool(self.P.z(first.core_len) > 0)):
+                    return d
+                j = first.fresh_index(self, "j")
+                self.P.ghost.setdefault("generic_indices", []).append(j)
+                sub = Frame(fr.module, fr.func, fr.cls)
+                sub.vars = dict(fr.vars)
+                sub.self_obj = fr.self_obj
+                self.assign_target(gen.target, first.at(self, j), sub)
+                keep = True
+                for cond in gen.ifs:
+                    if not self.P.branch(self.truth(self.eval(cond, sub))):
+                        keep = False
+                        break
+                if keep:
+                    self.setitem(d, self.eval(node.key, sub), self.eval(node.value, sub), node)
+                return d
         out = {}
 
         def add(f):
